@@ -834,7 +834,10 @@ class EncodingParser(object):
         c = data.skip(spaceCharactersBytes | frozenset([b"/"]))
         assert c is None or len(c) == 1
         # Step 2
-        if c in (b">", None):
+        if c is None:
+            # ran off the end of the buffer inside a tag
+            raise StopIteration
+        if c == b">":
             return None
         # Step 3
         attrName = []
